@@ -8,9 +8,9 @@ import rt "github.com/wolimst/lib-secs2-hsms-go/pkg/zzverifrt"
 // order of construction (= left to right, depth first), the names it used.
 type zzGen struct {
 	kinds int // size of the leaf menu: I1, ASCII variable, B, BOOLEAN, U2, F4, ASCII constant
-	next int
-	ell  int
-	vars []string
+	next  int
+	ell   int
+	vars  []string
 }
 
 func (g *zzGen) name() string {
